@@ -12,10 +12,10 @@ import (
 
 // Scheduling policies.
 const (
-	SchedRandom = iota // at each point switch with probability SwitchPM/1000 to a random runnable task
-	SchedPCT           // priorities with Depth random priority-change points
-	SchedChaser        // after a Put, let another task run for a while (it tends to re-borrow the object), then come back
-	SchedRoundRobin    // switch at every point
+	SchedRandom     = iota // at each point switch with probability SwitchPM/1000 to a random runnable task
+	SchedPCT               // priorities with Depth random priority-change points
+	SchedChaser            // after a Put, let another task run for a while (it tends to re-borrow the object), then come back
+	SchedRoundRobin        // switch at every point
 	SchedModes
 )
 
